@@ -83,6 +83,10 @@ class World:
             ext[name] = (lambda a, k, cls=cls: self.new(cls, a, k))
         for name, f in self.funcs.items():
             ext[name] = (lambda a, k, f=f: self.call_func(f, a, k))
+        for cls in self.classes.values():
+            for mname, m in cls.methods.items():
+                if any(A.dotted(d) == "staticmethod" for d in m.node.decorator_list) and mname not in ext:
+                    ext[mname] = (lambda a, k, m=m: self.call_func(m, a, k))
         mnames = {m for cls in self.classes.values() for m in cls.methods}
         for m in mnames:
             base_m = self.base.get("." + m)
@@ -95,8 +99,24 @@ class World:
                 raise NotHandled()
 
             ext["." + m] = disp
+        ext["__iter__"] = self.iterate
         self.ext = ext
         return ext
+
+    def iterate(self, v):
+        """Items of `for x in instance`: the operand of the `yield from` / `return iter(...)` of its __iter__."""
+        if not (isinstance(v, Instance) and "__iter__" in v.cls.methods):
+            raise NotHandled()
+        body = A.strip_docstring(v.cls.methods["__iter__"].node.body)
+        src = None
+        if len(body) == 1 and isinstance(body[0], ast.Expr) and isinstance(body[0].value, ast.YieldFrom):
+            src = body[0].value.value
+        elif len(body) == 1 and isinstance(body[0], ast.Return) and isinstance(body[0].value, ast.Call) and A.call_attr(body[0].value) == "iter" and body[0].value.args:
+            src = body[0].value.args[0]
+        if src is None:
+            raise Undecided(f"{v.cls.name}.__iter__ is not a plain delegation")
+        it = Interp(dict(self.module_env, self=v), v.attrs, self.region, methods={n: mm.node for n, mm in v.cls.methods.items()}, cls_name=v.cls.name, externals=self.externals())
+        return it.iterable(it.eval(src))
 
     def new(self, cls, args, kwargs):
         inst = Instance(cls)
